@@ -104,7 +104,7 @@ def explore(ctx, shape, tier, report):
         room = ROOMS[0]
         rows = []
         for i in range(shape['n']):
-            nid = w.atom('n%d_id' % i, None, 'uid', n=16)
+            nid = S(lit=(b'N%d' % i).ljust(16, b'n'))      # concrete, distinct: the statements are attributed to rows by id
             js = w.atom('n%d_json' % i, None, 'str')
             node = w.node(id=nid, room_id=room, cdate=w.i64('n%d_cdate' % i), mdate=w.i64('n%d_mdate' % i), entity=S(lit='s', text=True),
                           author=w.atom('n%d_author' % i, KEYS, 'bytes', n=33), json=js)
@@ -163,7 +163,7 @@ def explore(ctx, shape, tier, report):
         for r in rows:
             slot = r['old_id']
             if slot is None:
-                ins = [x for x in sql if x[0].startswith('INSERT INTO _node (') and s_eq(x[1][0], r['nid']) is not False]
+                ins = [x for x in sql if x[0].startswith('INSERT INTO _node (') and s_eq(x[1][0], r['nid']) is True]
                 if len(ins) != 1:
                     raise Inconclusive('expected one INSERT INTO _node for a new row, saw %d' % len(ins))
                 slot = ins[0][2]
